@@ -832,6 +832,18 @@ def h_result_map_err(ex, st, frame, t, nf, args, dty):
     return ("states", outs)
 
 
+def h_result_and(ex, st, frame, t, nf, args, dty):
+    """Result::and(self, res): res if self is Ok, else self's error"""
+    a, b = args[0], args[1]
+    good = split_enum(ex, st, a, 0)
+    alts = []
+    if ex.feasible(st, good):
+        alts.append((b, good))
+    if ex.feasible(st, z3.Not(good)):
+        alts.append((err(ex._get_field(st, a, "Err", 0, "?"), dty), z3.Not(good)))
+    return alts
+
+
 def h_ok_or_else(ex, st, frame, t, nf, args, dty):
     v = args[0]
     is_some = split_enum(ex, st, v, 1)
@@ -1768,6 +1780,7 @@ STD_SUMMARIES = [
     (r"into_bincode_if_unexpected_eof$", h_classify_eof),
     (r"^<(std::result::)?Result as (anyhow::)?Context<.*>>::(with_context|context)$", h_err_map_keep),
     (r"^(std::option::)?Option::ok_or_else$", h_ok_or_else),
+    (r"^(std::result::)?Result(::<.*>)?::and$", h_result_and),
     (r"^(futures::future::|futures_util::future::)?maybe_done$", h_maybe_done),
     (r"^(futures::future::|futures_util::future::)?poll_fn$", h_poll_fn),
     (r"^(futures::future::|futures_util::future::)?MaybeDone(::<.*>)?::take_output$", h_maybe_done_take),
